@@ -11,7 +11,7 @@
    * CChan: white box — a real dagChannel (built by dagChannelBuilder through the hook
      compose/verif_c02.go) driven with a sequence of operations; the full channel state observed after
      every operation is compared with the model channel of Model/Graph.v. *)
-From Eino Require Import Base.Util Model.Graph Model.Chain Model.GraphCmp Model.DagValidate.
+From Eino Require Import Base.Util Model.Graph Model.Chain Model.GraphCmp Model.DagValidate Model.DagSpec.
 Open Scope N_scope.
 
 Inductive chan_op :=
@@ -118,11 +118,69 @@ Definition gcase_ok_c02 (c : gcase) : bool :=
     else gcase_ok c
   else gcase_ok c.
 
+(* THE DENOTATION against the implementation (Model/DagSpec.v; Props/C02.v dag_result_is_den,
+   dag_executed_is_den, dag_failure_is_den). For a case whose root is in all-predecessor mode and whose nodes are
+   listed in a topological order (topo_ok: every graph of the generators except the deliberately cyclic ones),
+   den_run is evaluated by recursion on that order — no channels, no loop, no schedule — and compared with what
+   the implementation showed: every logged execution of a root lambda is of a node den triggers, on den's input;
+   a finished run returned den's result; a node failure the run reported is a DFail of den. Nested graphs enter
+   through nout (run_nest of the sub-graph); cases with a failing lambda AND a nested graph are left out (a
+   failing eager sub-graph is not a function of its input). *)
+Definition sub_of (fails : list fail_entry) (F : forest) : nat -> path -> value -> unit -> outcome value * unit :=
+  fun i p' v s' =>
+    match nth_error F i with
+    | Some g' => run_nest value unit tree_ops (tree_exec fails) sched_first (List.length F) F p' g' v s'
+    | None => (Fail [mkerr eUnknownNode] [], s')
+    end.
+
+Definition nout_of (fails : list fail_entry) (F : forest) (n : node) (v : value) : tres value :=
+  fst (fst (run_task value unit tree_ops (tree_exec fails) (sub_of fails F) [] n v tt)).
+
+Definition has_sub (g : graph) : bool :=
+  existsb (fun n => match n_kind n with KSub _ => true | _ => false end) (g_nodes g).
+
+Definition den_applicable (c : gcase) (g : graph) : bool :=
+  match g_mode g with Dag => true | Pregel => false end
+  && topo_ok g (node_order g)
+  && (match gc_fails c with [] => true | _ => false end || negb (has_sub g)).
+
+Definition den_ok (c : gcase) : bool :=
+  let F := lower_forest (gc_forest c) in
+  match F with
+  | [] => true
+  | g :: _ =>
+    if den_applicable c g then
+      let ord := node_order g in
+      let nout := nout_of (gc_fails c) F in
+      let T := den_run value tree_ops g nout (gc_input c) ord in
+      forallb (fun ev : path * value =>
+                 match fst ev with
+                 | [t] => match den_trig value tree_ops g T t with
+                          | TRun w => value_eqb w (snd ev)
+                          | _ => false
+                          end
+                 | _ => true
+                 end) (o_log (gc_obs c))
+      && match o_class (gc_obs c) with
+         | ODone v => match den_trig value tree_ops g T kEND with TRun v' => value_eqb v v' | _ => false end
+         | OFail cls =>
+             if N.ltb eNodeBase cls then
+               existsb (fun k => match stat value T k with
+                                 | DFail es => existsb (fun e => N.eqb (e_class e) cls) es
+                                 | _ => false
+                                 end) ord
+             else true
+         | _ => true
+         end
+    else true
+  end.
+
 Definition bad (c : ccase) : bool :=
   match c with
   | CGraph g => negb (gcase_ok_c02 g) || negb (forest_dag_valid (lower_forest (gc_forest g)))   (* it compiled *)
+                || negb (den_ok g)
   | CLoop F => forest_dag_valid (lower_forest F)
-  | CFamily gs => existsb (fun g => negb (gcase_ok_c02 g) || negb (forest_dag_valid (lower_forest (gc_forest g)))) gs
+  | CFamily gs => existsb (fun g => negb (gcase_ok_c02 g) || negb (forest_dag_valid (lower_forest (gc_forest g))) || negb (den_ok g)) gs
   | CChan ctrl data ops => negb (chan_trace_ok (chan0 ctrl data) ops)
   end.
 Definition mismatches (cs : list ccase) : list nat := mismatches_from bad 0 cs.
